@@ -39,6 +39,12 @@ CLAIMED = {
  "C20": dict(technique="static analysis: alias/mutation-sink analysis of the fetched document bytes, polarity chain of the allow/except flag across proxy, wire request and store, dominance rules for pass-through returns, provenance of the parsed query text, per-id send order",
              text="Decides that the filter never writes through the (possibly cached) stored bytes, that allow/except arrives with the right polarity, that documents pass through unfiltered only in the enumerated cases and that one block per id is sent in order. Value fidelity of the JSON re-encoding is the library's behaviour and is not decided.",
              note="Trusted: go/ssa; dependency summary: insane-json DecodeBytes copies its input.", ref="§3 C20"),
+ "C10": dict(technique="static analysis: alias/mutation-sink analysis of the ingested document bytes and of tokenizer inputs, path-sensitive error discipline in the bulk loop, reset-before-use order for pooled buffers, single-store ack rule, counter/append pairing, provenance of the id time, loop-nest shape of the time extraction, framing order and capacity limiting",
+             text="Structural conditions of 'stored verbatim, exactly once, or not at all': nothing can write through the bytes that are stored, an invalid document or reader error aborts before the single store call, the created count is tied to the append, the time rule is wired as stated. Time parsing, drift boundaries and JSON validity are value-level and not decided.",
+             note="Trusted: go/ssa; dependency summaries (insane-json DecodeBytes copies; bufio.ReadLine returns a view).", ref="§3 C10"),
+ "C11": dict(technique="static analysis: sibling comparison of the character-class predicates and constants used by the byte-level tokenizer and the two rune-level parsers, case-mapping class rule, forced case-sensitivity of _exists_ in both parsers, enum coverage of registered tokenizer types by the parsers' switches, provenance of the case flag, alias rule for tokenizer helpers",
+             text="The two independently written tokenizations are compared where they must say the same thing (which runes continue a word, how case is folded, which index types are searchable). A disagreement is exactly a token the query side cannot produce. Size limits, path prefixes and quoting styles are input-space and not decided.",
+             note="Trusted: go/ssa; unicode predicates compared by identity.", ref="§3 C11"),
 }
 
 NOT_YET = "check not built yet in this round (planned in DESIGN.md §3); nothing is claimed for it"
